@@ -1,7 +1,7 @@
 //! playdrive — the command-line player's protocol run directly on the library (C20).
 //!
 //! usage: playdrive <cases.jsonl>   one JSON object per line:
-//!   {"id":.., "story": json-text | "ink": source, "keep_open": bool,
+//!   {"id":.., "story": json-text | "ink": source, "keep_open": bool, "compile_only": bool,
 //!    "inputs": [ ["blank"] | ["unknown"] | ["choice", i] | ["divert", path] | ["help"] | ["exit"] ]}
 //! The inputs are the user's lines already classified (by the Coq model Cli/Escape.v:parse_input).
 //! output: {"id":.., "compile":.., "load":.., "events":[..]} with events
@@ -145,6 +145,10 @@ fn run_case(case: &J) -> J {
     let inputs = case.get("inputs").and_then(|x| x.as_array()).unwrap_or(&empty).clone();
     let keep_open = case.get("keep_open").and_then(|x| x.as_bool()).unwrap_or(false);
     let mut ev: Vec<J> = Vec::new();
+    if case.get("compile_only").and_then(|x| x.as_bool()).unwrap_or(false) {
+        return json!({"id": id, "compile": compile, "load": "skipped", "events": ev, "json": story_json});
+    }
+    bladeink::verif::set_fuel(Some(200_000));
     let r = catch_unwind(AssertUnwindSafe(|| match Story::new(&story_json) {
         Ok(mut s) => {
             play(&mut s, &inputs, keep_open, &mut ev);
